@@ -178,10 +178,31 @@ def run(ctx, host=None):
     R6 = chk.rule('C05.R6', 'transaction premises: explicit BEGIN, no autocommit, only PRAGMA journal_mode=wal', 1)
     transaction_premises(ctx, chk, R6)
 
+    # after an interrupted repack the committed rows designate the scratch pack: a reader must serve them (or fail loudly), never filter them out
+    from .common import accumulators_grow_only
+    accumulators_grow_only(ctx, chk, R4, ['container:Container._get_objects_stream_meta_generator'])
+
     from .common import option_forwarding
     R7 = chk.rule('C05.R7', 'do_commit is forwarded unchanged by every wrapper (a dropped do_commit=False would commit in the middle of an import)', 1)
     nf = option_forwarding(ctx, chk, R7, ['do_commit'])
     chk.require(nf >= 2, f'expected >= 2 forwarding sites of do_commit, found {nf}')
+    # the public default is to commit: a caller that does not mention do_commit gets its objects committed before the call returns
+    ndef = 0
+    for f in prog.all_functions():
+        if isinstance(f.node, ast.Lambda) or f.cls is not K.container or 'do_commit' not in f.params:
+            continue
+        a = f.node.args
+        pos = a.posonlyargs + a.args
+        dflt = dict(zip([x.arg for x in pos][len(pos) - len(a.defaults):], a.defaults))
+        dflt.update({x.arg: d for x, d in zip(a.kwonlyargs, a.kw_defaults) if d is not None})
+        d = dflt.get('do_commit')
+        ndef += 1
+        if isinstance(d, ast.Constant) and d.value is True:
+            chk.ok(R7, f.qualname, 'do_commit: bool = True', detail='commit unless the caller asks otherwise', nontrivial=False)
+        else:
+            chk.bad(R7, f.qualname, f'do_commit default `{norm(d) if d is not None else "<none>"}`', 'the default of do_commit is no longer True: a caller that relies on the default gets its objects '
+                    'acknowledged (keys returned) but not committed -- invisible to other handles and lost when the handle is closed or the process dies', where=f'{f.module.relpath}:{f.lineno}')
+    chk.require(ndef >= 3, f'expected >= 3 Container methods with a do_commit parameter, found {ndef}')
 
     # rules of other properties that are necessary conditions of this one too: crash safety assumes packs are never truncated or rewritten in place by later operations (C13)
     if host is None:
